@@ -415,6 +415,20 @@ class TermInterp:
             return tuple(l * x for x in r)
         if isinstance(op, ast.Mult) and isvec(l) and isinstance(r, int):
             return tuple(r * x for x in l)
+        # integer order tables (lists of order vectors) follow numpy's elementwise arithmetic, never python's list repetition
+        istab = lambda v: isinstance(v, (list, tuple)) and v and all(isvec(x) for x in v)
+        if isinstance(op, ast.Mult) and istab(r) and isinstance(l, int) and not isinstance(l, bool):
+            return [tuple(l * x for x in row) for row in r]
+        if isinstance(op, ast.Mult) and istab(l) and isinstance(r, int) and not isinstance(r, bool):
+            return [tuple(r * x for x in row) for row in l]
+        if isinstance(op, (ast.Add, ast.Sub)) and istab(l) and istab(r) and len(l) == len(r):
+            sg = 1 if isinstance(op, ast.Add) else -1
+            return [tuple(x + sg * y for x, y in zip(a, b)) for a, b in zip(l, r)]
+        if isinstance(op, (ast.Add, ast.Sub)) and istab(l) and isvec(r):
+            sg = 1 if isinstance(op, ast.Add) else -1
+            return [tuple(x + sg * y for x, y in zip(a, r)) for a in l]
+        if isinstance(op, ast.Mult) and (isinstance(l, (list, tuple)) or isinstance(r, (list, tuple))) and (isinstance(l, int) or isinstance(r, int)):
+            self.err("multiplication of a sequence by an integer (python repetition vs numpy scaling is ambiguous here)", node)
         if isinstance(l, Table) and isinstance(r, Table) and isinstance(op, (ast.Add, ast.Sub)):
             if l.shape != r.shape or l.axes != r.axes:
                 self.err("tables of different layout combined", node)
